@@ -182,11 +182,8 @@ func vfC04Run(cs vfC04Case) (msg string, nontrivial bool) {
 			}
 		}
 	}
-	for _, ch := range chunks {
-		if len(ch) >= 32*1024 {
-			return "", false // out of domain: the reader's own source delivers at most its buffer size
-		}
-	}
+	// chunks larger than the reader's 32 KiB buffer are delivered piecewise, the way recvDataReader hands a big DATA block
+	// to the decoder: a refill can then fill the buffer completely, with a leader as its very last byte
 	var r readCloser = newEscapeReader(table, &vfChunkReader{chunks: chunks})
 	if cs.Compress {
 		zr, err := newZstdReader(r)
@@ -314,7 +311,7 @@ func vfGenC04(rt *rapid.T) vfC04Case {
 	kind := rapid.IntRange(0, 3).Draw(rt, "datakind")
 	n := rapid.IntRange(0, 300).Draw(rt, "n")
 	if kind == 3 {
-		n = rapid.IntRange(300, 70000).Draw(rt, "nbig")
+		n = rapid.IntRange(300, 200000).Draw(rt, "nbig")
 	}
 	cs.Data = make([]byte, n)
 	seed := rapid.Uint64().Draw(rt, "seed")
@@ -358,17 +355,6 @@ func vfGenC04(rt *rapid.T) vfC04Case {
 	for i := 1; i <= est; i++ {
 		if set[i] {
 			cs.Cuts = append(cs.Cuts, i)
-		}
-	}
-	if n > 300 { // keep chunks below the reader's buffer size
-		for i := 16000; i < est; i += 16000 {
-			cs.Cuts = append(cs.Cuts, i)
-		}
-		// sort
-		for i := 1; i < len(cs.Cuts); i++ {
-			for j := i; j > 0 && cs.Cuts[j] < cs.Cuts[j-1]; j-- {
-				cs.Cuts[j], cs.Cuts[j-1] = cs.Cuts[j-1], cs.Cuts[j]
-			}
 		}
 	}
 	cs.ReadSz = rapid.SliceOfN(rapid.SampledFrom([]int{1, 2, 3, 5, 16, 100, 4096, 32768, 40000}), 1, 4).Draw(rt, "readsz")
